@@ -1193,7 +1193,7 @@ class NPModel:
             hstack=self._d(np_hstack, np.hstack), vstack=self._d(np_vstack, np.vstack),
             concatenate=self._concat, arange=np_arange, tile=self._d2(np_tile, np.tile), repeat=self._d2(np_repeat, np.repeat),
             sum=np_sum, max=np_max, sort=np_sort, unique=np_unique, nonzero=self._nz, abs=self._abs,
-            reshape=self._reshape, moveaxis=self._moveaxis,
+            reshape=self._reshape, moveaxis=self._moveaxis, broadcast_to=self._broadcast_to,
         )
 
     def _d(self, sym, real):
@@ -1240,6 +1240,20 @@ class NPModel:
         if isinstance(a, (SArr, S)):
             return abs(a)
         return np.abs(a)
+
+    def _broadcast_to(self, a, shape, **kw):
+        if not (isinstance(a, SArr) or _any_sym(shape)):
+            return np.broadcast_to(a, shape, **kw)
+        a = as_sarr(a)
+        shape = tuple(_dim(d) for d in (shape if isinstance(shape, (tuple, list)) else (shape,)))
+        off = len(shape) - a.ndim
+        if off < 0:
+            raise Unsupported("broadcast_to a smaller rank")
+        ones = [is_conc(d) and int(d) == 1 for d in a._shape]
+
+        def get(idx, a=a, off=off, ones=ones):
+            return a._get(tuple(tm.const(0) if o else i for i, o in zip(idx[off:], ones)))
+        return SArr(shape, get, a.sort)
 
     def _moveaxis(self, a, source, destination):
         if not isinstance(a, SArr):
